@@ -333,18 +333,24 @@ func (R *Repository) updateCrlEntry(entry *Entry, newChains *core.CertificateCha
 	if err != nil {
 		return err
 	}
-	R.logger.Info("verify crl signature of crl " + entry.CRLLoader.GetDescription())
-	signatureCert, err := verifyCRLSignature(result, chains)
-	if err != nil {
-		R.setLastSignatureVerifyFailed(entry, result)
-		return err
-	} else {
-		R.resetLastSignatureVerifyFailed(entry)
-	}
-
-	err = processor.UpdateSignatureCertificate(signatureCert)
-	if err != nil {
-		return err
+	//same signature policy as for the first load of a crl
+	if R.crlConfig.SignatureValidationModeParsed != config.SignatureValidationModeNone {
+		R.logger.Info("verify crl signature of crl " + entry.CRLLoader.GetDescription())
+		signatureCert, verifyErr := verifyCRLSignature(result, chains)
+		if verifyErr != nil {
+			R.logger.Warn("could not validate signature of crl", zap.String("crl", entry.CRLLoader.GetDescription()))
+			if R.crlConfig.SignatureValidationModeParsed == config.SignatureValidationModeVerify {
+				R.setLastSignatureVerifyFailed(entry, result)
+				err = verifyErr
+				return err
+			}
+		} else {
+			R.resetLastSignatureVerifyFailed(entry)
+			err = processor.UpdateSignatureCertificate(signatureCert)
+			if err != nil {
+				return err
+			}
+		}
 	}
 
 	err = R.updateEntry(entry, err, store)
